@@ -10,6 +10,9 @@ from typing import Any, List, Optional, Tuple
 import z3
 
 
+Z3_FIRST_S: Optional[float] = None     # set per contract (Contract.z3_first_s) while its obligations are solved
+
+
 class Result:
     def __init__(self, status: str, backend: str, seconds: float, model: Any = None, reason: str = ""):
         self.status = status  # 'unsat' | 'sat' | 'unknown'
@@ -67,7 +70,8 @@ def prove(assumptions: List[Any], goal: Any, timeout_s: float = 10.0, portfolio:
           both: bool = False) -> Result:
     """Is  /\\ assumptions => goal  valid?  unsat = discharged, sat = refuted (model), unknown = undecided."""
     t0 = time.time()
-    s = _solver(int(timeout_s * 1000))
+    # string-heavy contracts: the API solver gets a short first slot, cvc5 (which decides these) the full budget
+    s = _solver(int(min(timeout_s, Z3_FIRST_S) * 1000) if (Z3_FIRST_S and portfolio) else int(timeout_s * 1000))
     s.add(*assumptions)
     s.add(z3.Not(goal))
     r = s.check()
